@@ -149,25 +149,42 @@ int vf_eq(const char *prop, const char *key, const char *what, const uint8_t *go
 static struct gobj { uint8_t *base; size_t maplen; uint8_t *obj; size_t n; } gtab[GMAX];
 static size_t pagesz = 0;
 
+/* pool of unmapped-on-exit mappings (data area of exactly one or two pages) so that the
+ * common small objects do not cost three system calls each */
+#define GPOOL 64
+static struct { uint8_t *base; size_t maplen; } gpool[GPOOL];
+static int gpool_n = 0;
+
 void *galloc(size_t n, int end)
 {
     size_t data, i;
-    uint8_t *base, *obj;
+    uint8_t *base = 0, *obj;
     int slot;
     if (!pagesz) pagesz = (size_t)sysconf(_SC_PAGESIZE);
     data = ((n + pagesz - 1) / pagesz) * pagesz;
     if (data == 0) data = pagesz;
     for (slot = 0; slot < GMAX && gtab[slot].base; ++slot) ;
     if (slot == GMAX) { fprintf(stderr, "HARNESS galloc table full\n"); exit(2); }
-    base = (uint8_t *)mmap(0, data + 2 * pagesz, PROT_READ | PROT_WRITE, MAP_PRIVATE | MAP_ANONYMOUS, -1, 0);
-    if (base == MAP_FAILED) { fprintf(stderr, "HARNESS mmap failed\n"); exit(2); }
+    for (int k = gpool_n - 1; k >= 0; --k)
+        if (gpool[k].maplen == data + 2 * pagesz) { base = gpool[k].base; gpool[k] = gpool[--gpool_n]; break; }
+    if (!base) {
+        base = (uint8_t *)mmap(0, data + 2 * pagesz, PROT_READ | PROT_WRITE, MAP_PRIVATE | MAP_ANONYMOUS, -1, 0);
+        if (base == MAP_FAILED) { fprintf(stderr, "HARNESS mmap failed\n"); exit(2); }
+        mprotect(base, pagesz, PROT_NONE);
+        mprotect(base + pagesz + data, pagesz, PROT_NONE);
+    }
     memset(base + pagesz, GCANARY, data);
-    mprotect(base, pagesz, PROT_NONE);
-    mprotect(base + pagesz + data, pagesz, PROT_NONE);
     obj = end ? base + pagesz + data - n : base + pagesz;
     for (i = 0; i < n; ++i) obj[i] = GPAT;
     gtab[slot].base = base; gtab[slot].maplen = data + 2 * pagesz; gtab[slot].obj = obj; gtab[slot].n = n;
     return obj;
+}
+
+static void grelease(struct gobj *g)
+{
+    if (gpool_n < GPOOL && g->maplen <= 4 * pagesz) { gpool[gpool_n].base = g->base; gpool[gpool_n].maplen = g->maplen; ++gpool_n; }
+    else munmap(g->base, g->maplen);
+    g->base = 0;
 }
 
 static int gcheck_one(struct gobj *g, const char *where)
@@ -197,8 +214,7 @@ void gfree(void *p)
     for (int i = 0; i < GMAX; ++i) {
         if (gtab[i].base && gtab[i].obj == (uint8_t *)p) {
             gcheck_one(&gtab[i], "gfree");
-            munmap(gtab[i].base, gtab[i].maplen);
-            gtab[i].base = 0;
+            grelease(&gtab[i]);
             return;
         }
     }
@@ -211,8 +227,7 @@ void gfree_all(void)
     for (int i = 0; i < GMAX; ++i) {
         if (gtab[i].base) {
             gcheck_one(&gtab[i], "gfree_all");
-            munmap(gtab[i].base, gtab[i].maplen);
-            gtab[i].base = 0;
+            grelease(&gtab[i]);
         }
     }
 }
